@@ -60,6 +60,8 @@ class PEval:
         self.prog = world.prog
         self.steps = 0
         self.max_steps = max_steps
+        self.stubs: Dict[str, Any] = {}  # qualified function name -> value returned instead of folding the function
+        self.class_state: Dict[tuple, Any] = {}  # (class qname, attribute) -> shared class-level value
 
     def _tick(self, node):
         self.steps += 1
@@ -256,6 +258,12 @@ class PEval:
                 return r
             return Opaque(e.id)
         if isinstance(e, ast.Attribute):
+            r0 = self.prog.resolve_name_expr(fi.module, e) if isinstance(e.value, (ast.Name, ast.Attribute)) else None
+            if r0 and r0[0] == "classattr" and r0[2] in r0[1].class_attrs and isinstance(r0[1].class_attrs[r0[2]], (ast.Dict, ast.List, ast.Set)):
+                key = (r0[1].qname, r0[2])
+                if key not in self.class_state:
+                    self.class_state[key] = self.eval(r0[1].class_attrs[r0[2]], {}, fi, depth)
+                return self.class_state[key]
             v = self.prog.const(fi.module, e)
             if v is not UNKNOWN:
                 return v
@@ -265,6 +273,11 @@ class PEval:
             base = self.eval(e.value, env, fi, depth)
             if isinstance(base, dict) and e.attr in base and isinstance(base.get("__obj__"), bool):
                 return base[e.attr]
+            if isinstance(base, dict) and isinstance(base.get("__obj__"), bool) and fi.cls is not None and e.attr in fi.cls.class_attrs:
+                key = (fi.cls.qname, e.attr)
+                if key not in self.class_state:
+                    self.class_state[key] = self.eval(fi.cls.class_attrs[e.attr], {}, fi, depth)
+                return self.class_state[key]
             if isinstance(base, Opaque):
                 return Opaque(f"{base.name}.{e.attr}")
             raise PEvalUnsupported(f"attribute {norm(e)}")
@@ -472,6 +485,8 @@ class PEval:
             if m is not None:
                 target = m
                 recv = [env.get(f.value.id, Opaque(f.value.id))]
+        if target is not None and target.qname in self.stubs:
+            return self.stubs[target.qname]
         if target is not None:
             if target.kind in ("method", "class") and not recv:
                 # Class.method(obj, ...) explicit receiver for methods; classmethods get the class
